@@ -32,7 +32,11 @@ func (c *Conversation) receiveUnit(m ValidMessage, forgetFragments bool) (plain 
 		shouldForgetFragment = false
 		c.fragmentationContext, err = c.receiveFragment(c.fragmentationContext, message)
 		if fragmentsFinished(c.fragmentationContext) {
-			return c.withInjectionsPlain(c.receiveUnit(c.fragmentationContext.frag, false))
+			// the message is complete: forget the fragments, so that it can
+			// not be processed once more when another fragment shows up
+			complete := c.fragmentationContext.frag
+			c.fragmentationContext = forgetFragment()
+			return c.withInjectionsPlain(c.receiveUnit(complete, false))
 		}
 	case msgGuessUnknown:
 		c.messageEvent(MessageEventReceivedMessageUnrecognized)
